@@ -11,7 +11,7 @@ def search(ctx):
 
 
 def run(ctx):
-    ctx.prove(PROPS, extra_modules=["RotoV.Model.Tarjan", "RotoV.Lemmas.Tarjan"])
+    ctx.prove(PROPS, extra_modules=["RotoV.Model.Tarjan", "RotoV.Lemmas.Tarjan", "RotoV.Lemmas.TarjanCtx", "RotoV.Lemmas.TarjanNoPanic"])
     if ctx.build_harness("c14"):
         ctx.harness("c14", ["run", ctx.seed, ctx.tier], timeout=3000)
     ctx.trusted += [
@@ -19,7 +19,7 @@ def run(ctx):
         "context_check, determine_uses_context) and of the codegen item loop: tied on every run by exact comparison with the "
         "hook's dump (components, order / erring constant, initialiser log) for every generated program",
         "order_topological is established per run by the verified checker validOrder on the implementation's real components "
-        "(Tarjan's algorithm itself is proved only on the decided instances)",
+        "(for Tarjan's algorithm itself, totality is proved in general; the order property only on the decided instances)",
         "cranelift-jit's finalize_definitions failing loudly on a call to an undefined function is assumed (modelled as panic)",
         "edge collection in typechecker/expr.rs is covered by the correspondence run only (8 syntactic shapes x 5 path forms)",
     ]
